@@ -3,6 +3,7 @@ import DdnnfVerif.Model.Basic
 import DdnnfVerif.Model.Query
 import DdnnfVerif.Model.WFCheck
 import DdnnfVerif.Model.Features
+import DdnnfVerif.Model.Enum
 namespace Ddnnf
 
 def fmtInts (xs : List Int) : String := " ".intercalate (xs.map toString)
